@@ -154,8 +154,30 @@ func c07Check(c c07Case, rec *evid.Recorder) *Fail {
 		if len(errs) > 0 {
 			msg = errs[0].Message
 		}
-		_ = msg
-		rec.Discard("rejected by xjs (numeric literal out of range for strconv, or other)")
+		// find the literals that are rejected on their own, set them aside
+		// (whether a literal must be accepted is C02's clause, and C02 enumerates
+		// the same literal space) and go on with the rest of the batch
+		if len(c.Lits) > 1 {
+			var rest []c07Lit
+			for _, l := range c.Lits {
+				if _, e1, e2 := parseX("print("+l.Src+");", Mode{}); e2 != nil || len(e1) > 0 {
+					kind := "number"
+					if l.Src[0] == '"' || l.Src[0] == '\'' {
+						kind = "string"
+					} else if l.Src[0] == '`' {
+						kind = "template"
+					}
+					rec.Discard("literal rejected by xjs: " + kind)
+					rec.Note("rejected literal: " + trunc(l.Src, 60) + " (" + msg + ")")
+					continue
+				}
+				rest = append(rest, l)
+			}
+			if len(rest) > 0 && len(rest) < len(c.Lits) {
+				return c07Check(c07Case{Lits: rest}, rec)
+			}
+		}
+		rec.Discard("literal program rejected by xjs: " + msg)
 		return nil
 	}
 	var refRun *jsrun.Result
@@ -313,6 +335,14 @@ func c07Exhaustive(rec *evid.Recorder, report func(c07Case)) {
 			}
 		}
 	}
+	c07EnumPieces(rec, add, func(l c07Lit) { batch = append(batch, l) })
+	flush()
+	rec.ClassN("exhaustive-batches", nb)
+}
+
+// c07EnumPieces enumerates the single-piece string literals of the exhaustive
+// space: add receives a piece (used in both quote styles), rawLit a complete literal.
+func c07EnumPieces(rec *evid.Recorder, add func(ir.Piece), rawLit func(c07Lit)) {
 	for v := 0; v < 256; v++ {
 		add(gen.HexPiece(v, false))
 		add(gen.HexPiece(v, true))
@@ -361,7 +391,7 @@ func c07Exhaustive(rec *evid.Recorder, report func(c07Case)) {
 		for _, q := range []byte{'"', '\''} {
 			if byte(c) != q && c != '\\' {
 				n := &ir.Node{K: ir.Str, Quote: string(q), Pieces: []ir.Piece{{Src: string(rune(c)), Units: []uint16{uint16(c)}}}}
-				batch = append(batch, strLit(n))
+				rawLit(strLit(n))
 			}
 		}
 		if (c >= '1' && c <= '9') || c == 'x' || c == 'u' {
@@ -372,8 +402,6 @@ func c07Exhaustive(rec *evid.Recorder, report func(c07Case)) {
 	add(ir.Piece{Src: "\\\n", Units: nil})
 	add(ir.Piece{Src: "\\\r\n", Units: nil})
 	rec.Exhaustive("every ASCII byte raw and backslash-escaped, both quote styles")
-	flush()
-	rec.ClassN("exhaustive-batches", nb)
 }
 
 var c07Witnesses = []c07Case{
